@@ -141,25 +141,26 @@ abbrev CC := List PathInfo
 
 def CC.find (cc : CC) (fold : Bytes) : Option PathInfo := List.find? (fun e => e.fold == fold) cc
 
+/-- the part of `collisionChecker.check` before the recursive call: look the folded path up; report a
+    clash, or register the path. -/
+def ccStep (toFold : Bytes → Bytes) (cc : CC) (p : Bytes) (isDir : Bool) : CC × Option Reason :=
+  match cc.find (toFold p) with
+  | some other =>
+    if p != other.path then (cc, some .caseCollision)
+    else if isDir != other.isDir then (cc, some .fileAndDir)
+    else if !isDir then (cc, some .multiple)
+    else (cc, none)
+  | none => (cc ++ [⟨toFold p, p, isDir⟩], none)
+
 /-- `collisionChecker.check`; the recursion on `path.Dir` is bounded by `fuel` (`p.length + 1` suffices
     for relative paths; an absolute path makes the Go code recurse forever — `Reason.panic`). -/
 def ccCheck (toFold : Bytes → Bytes) : Nat → CC → Bytes → Bool → CC × Option Reason
   | 0, cc, _, _ => (cc, some .panic)
   | fuel + 1, cc, p, isDir =>
-    let fold := toFold p
-    let step : CC × Option Reason :=
-      match cc.find fold with
-      | some other =>
-        if p != other.path then (cc, some .caseCollision)
-        else if isDir != other.isDir then (cc, some .fileAndDir)
-        else if !isDir then (cc, some .multiple)
-        else (cc, none)
-      | none => (cc ++ [⟨fold, p, isDir⟩], none)
-    match step with
+    match ccStep toFold cc p isDir with
     | (cc', some e) => (cc', some e)
     | (cc', none) =>
-      let parent := pathDir p
-      if parent != [46] then ccCheck toFold fuel cc' parent true
+      if pathDir p != [46] then ccCheck toFold fuel cc' (pathDir p) true
       else (cc', none)
 
 def ccCheckTop (toFold : Bytes → Bytes) (cc : CC) (p : Bytes) (isDir : Bool) : CC × Option Reason :=
@@ -167,12 +168,13 @@ def ccCheckTop (toFold : Bytes → Bytes) (cc : CC) (p : Bytes) (isDir : Bool) :
 
 /-! ## checkFiles (zip.go 217–353) -/
 
-/-- all prefixes of `p` that end in a slash, shortest first: the directories visited by `inSubmodule`. -/
-def dirPrefixesAux (acc : Bytes) : Bytes → List Bytes
+/-- all prefixes of `p` that end in a slash, shortest first: the directories visited by `inSubmodule`.
+    `racc` = the bytes already passed, reversed. -/
+def dirPrefixesAux (racc : Bytes) : Bytes → List Bytes
   | [] => []
   | c :: rest =>
-    let acc' := acc ++ [c]
-    if c == 47 then acc' :: dirPrefixesAux acc' rest else dirPrefixesAux acc' rest
+    if c == 47 then (c :: racc).reverse :: dirPrefixesAux (c :: racc) rest
+    else dirPrefixesAux (c :: racc) rest
 
 def dirPrefixes (p : Bytes) : List Bytes := dirPrefixesAux [] p
 
@@ -294,13 +296,12 @@ def zipPrefix (mpath mvers : Bytes) : Bytes := mpath ++ [64] ++ mvers ++ [47]
 def addFiles (pfx : Bytes) : List FileInfo → Except CreateErr (List Entry)
   | [] => .ok []
   | f :: rest =>
-    let name := pfx ++ f.path
-    if name.length > 65535 then .error .nameTooLong
+    if (pfx ++ f.path).length > 65535 then .error .nameTooLong
     else if (f.content.length : Int) ≥ f.size + 1 then .error .contentLarger
     else
       match addFiles pfx rest with
       | .error e => .error e
-      | .ok es => .ok (⟨name, f.content.length, f.content⟩ :: es)
+      | .ok es => .ok (⟨pfx ++ f.path, f.content.length, f.content⟩ :: es)
 
 def create (E : Env) (mpath mvers : Bytes) (files : List FileInfo) : Except CreateErr (List Entry) :=
   if !E.modOK mpath mvers then .error .badModule
@@ -414,23 +415,36 @@ def createdDirs : List Effect → List Bytes
   | .mkdirAll p :: rest => ancestorsAndSelf p ++ createdDirs rest
   | .createExcl _ _ :: rest => createdDirs rest
 
+/-- `dst := filepath.Join(dir, name)` for the entry -/
+def dstOf (dir pfx : Bytes) (zf : Entry) : Bytes := fpJoin dir (zf.name.drop pfx.length)
+
+/-- one file entry: `MkdirAll(filepath.Dir(dst))`, `OpenFile(dst, O_EXCL)`, copy.  `fx` = effects so far. -/
+def unzipEntry (dir pfx : Bytes) (fx : List Effect) (zf : Entry) : List Effect × Option UnzipErr :=
+  -- os.MkdirAll(filepath.Dir(dst)): fails if the directory or an ancestor is an existing file
+  if (ancestorsAndSelf (pathDir (dstOf dir pfx zf))).any (fun d => (createdFiles fx).contains d) then
+    (fx, some .mkdir)
+  -- O_EXCL: fails if dst exists (as a file or as a directory)
+  else if (createdFiles (fx ++ [.mkdirAll (pathDir (dstOf dir pfx zf))])).contains (dstOf dir pfx zf)
+      || (createdDirs (fx ++ [.mkdirAll (pathDir (dstOf dir pfx zf))])).contains (dstOf dir pfx zf) then
+    (fx ++ [.mkdirAll (pathDir (dstOf dir pfx zf))], some .exists)
+  else if zf.content.length != zf.declSize then
+    (fx ++ [.mkdirAll (pathDir (dstOf dir pfx zf)), .createExcl (dstOf dir pfx zf) none], some .contentSize)
+  else
+    (fx ++ [.mkdirAll (pathDir (dstOf dir pfx zf)), .createExcl (dstOf dir pfx zf) (some zf.content)], none)
+
+/-- entries `Unzip` skips: the prefix alone, and directory entries -/
+def skipEntry (pfx : Bytes) (zf : Entry) : Bool :=
+  zf.name.drop pfx.length == [] || hasSlashSuffix (zf.name.drop pfx.length)
+
 /-- the extraction loop: `fx` = effects so far. -/
 def unzipLoop (dir : Bytes) (pfx : Bytes) : List Effect → List Entry → List Effect × Option UnzipErr
   | fx, [] => (fx, none)
   | fx, zf :: rest =>
-    let name := zf.name.drop pfx.length
-    if name == [] || hasSlashSuffix name then unzipLoop dir pfx fx rest
+    if skipEntry pfx zf then unzipLoop dir pfx fx rest
     else
-      let dst := fpJoin dir name
-      let parent := pathDir dst
-      -- os.MkdirAll(filepath.Dir(dst)): fails if the directory or an ancestor is an existing file
-      if (ancestorsAndSelf parent).any (fun d => (createdFiles fx).contains d) then (fx, some .mkdir)
-      else
-        let fx := fx ++ [.mkdirAll parent]
-        -- O_EXCL: fails if dst exists (as a file or as a directory)
-        if (createdFiles fx).contains dst || (createdDirs fx).contains dst then (fx, some .exists)
-        else if zf.content.length != zf.declSize then (fx ++ [.createExcl dst none], some .contentSize)
-        else unzipLoop dir pfx (fx ++ [.createExcl dst (some zf.content)]) rest
+      match unzipEntry dir pfx fx zf with
+      | (fx', some e) => (fx', some e)
+      | (fx', none) => unzipLoop dir pfx fx' rest
 
 structure UnzipResult where
   effects : List Effect
